@@ -341,6 +341,33 @@ func c11Directed(c *core.Ctx) bool {
 		c.Eval(5)
 		_ = rejected
 	}
+	if _, problem := dNamedTypeTests(); problem != "" {
+		c.Violation("params-do-not-describe-the-test|schemas-over-named-types", map[string]any{"observed": problem})
+		return false
+	}
+	// a one-option OneOf is still OneOf: its own code, parameter and text
+	var n1 int
+	l1o := z.Int().OneOf([]int{7}).Parse(3, &n1)
+	var f1 float64
+	l2o := z.Float64().OneOf([]float64{1.5}).Parse(2.5, &f1)
+	c.Eval(2)
+	if len(l1o) != 1 || l1o[0].Code != "one_of_options" || fmt.Sprint(l1o[0].Params["one_of_options"]) != "[7]" || l1o[0].Message != "number must be one of [7]" || len(l2o) != 1 || l2o[0].Code != "one_of_options" {
+		c.Violation("issue-not-fully-described|OneOf-with-one-option", map[string]any{"schema": "Int().OneOf([7]) on 3 / Float64().OneOf([1.5]) on 2.5", "issues": fmt.Sprint(z.Issues.SanitizeList(l1o), z.Issues.SanitizeList(l2o)), "codes": fmt.Sprint(l1o[0].Code, " ", l2o[0].Code), "want": "code one_of_options, params {one_of_options: [7]}, text number must be one of [7]"})
+		return false
+	}
+	// the test's own message outranks an application-wide formatter that words every issue it is handed
+	savedF := conf.IssueFormatter
+	conf.IssueFormatter = func(e *z.ZogIssue, ctx z.Ctx) { e.SetMessage("GLOBAL:" + e.Code) }
+	var sg string
+	lg := z.String().Min(5, z.Message("name is too short")).Required(z.Message("name is needed")).Parse("ab", &sg)
+	lg2 := z.String().Min(5, z.Message("name is too short")).Required(z.Message("name is needed")).Parse("", &sg)
+	lg3 := z.String().Max(1).Parse("ab", &sg)
+	conf.IssueFormatter = savedF
+	c.Eval(3)
+	if len(lg) != 1 || lg[0].Message != "name is too short" || len(lg2) != 1 || lg2[0].Message != "name is needed" || len(lg3) != 1 || lg3[0].Message != "GLOBAL:max" {
+		c.Violation("message-source|test-message-versus-global-formatter", map[string]any{"global_formatter": "sets GLOBAL:<code> on every issue it is handed", "messages": fmt.Sprint(z.Issues.SanitizeList(lg), z.Issues.SanitizeList(lg2), z.Issues.SanitizeList(lg3)), "want": "[name is too short] [name is needed] [GLOBAL:max]"})
+		return false
+	}
 	c.Count("directed_message_scenarios", 1)
 	return true
 }
